@@ -271,11 +271,17 @@ Definition eq3 (a b : Z * Z * Z) : bool :=
   (fst (fst a) =? fst (fst b)) && (snd (fst a) =? snd (fst b)) && (snd a =? snd b).
 Definition spec_after (o : outcome) : Z := match o with OResp r => retry_after_ns r | _ => 0 end.
 
-(* index of the first script entry carrying a cancellation *)
-Fixpoint first_cancel (script : list (outcome * cancel)) : option nat :=
+(* the largest number of requests the server may see given the first cancellation in the script:
+   a context cancelled before attempt j allows j requests, one cancelled later during attempt j allows j+1 *)
+Fixpoint cancel_bound (script : list (outcome * cancel)) : option nat :=
   match script with
   | [] => None
-  | (_, c) :: rest => if cancel_eqb c CNone then option_map S (first_cancel rest) else Some O
+  | (_, c) :: rest =>
+      match c with
+      | CNone => option_map S (cancel_bound rest)
+      | CBefore => Some O
+      | _ => Some 1%nat
+      end
   end.
 
 Fixpoint gaps_ok (gaps : list Z) (os : list outcome) : bool :=
@@ -305,7 +311,7 @@ Definition spec_write_ok (cfg : wcfg) (ty : str) (k : msgkind) (script : list (o
           (if 0 <? c_max_retries cfg then Z.of_nat n <=? c_max_retries cfg + 1
            else if c_max_retries cfg <? 0 then (n <=? 1)%nat else true) &&
           (* nothing is sent after the context was cancelled *)
-          match first_cancel script with Some j => (n <=? S j)%nat | None => true end &&
+          match cancel_bound script with Some j => (n <=? j)%nat | None => true end &&
           (* nil only after a 2xx; for v2 only with a written-statistics header or something written *)
           (if werr_eqb (ob_err ob) WNil
            then match rev seen with
@@ -317,12 +323,16 @@ Definition spec_write_ok (cfg : wcfg) (ty : str) (k : msgkind) (script : list (o
                 | [] => false
                 end
            else true) &&
-          (* a 2xx never yields a status error; a terminal status is reported as such *)
+          (* a 2xx never yields a status error; a non-2xx status is reported as such unless the context was
+             cancelled (in the wait: context error; before the next send: the transport's error) *)
           match rev seen with
           | OResp r :: _ =>
               if is_2xx (OResp r) then werr_eqb (ob_err ob) WNil || werr_eqb (ob_err ob) WV2Unconfirmed
               else if werr_eqb (ob_err ob) WCanceled then true
-              else werr_eqb (ob_err ob) (WStatus (r_status r))
+              else match nth_error script n with
+                   | Some (_, CBefore) => werr_eqb (ob_err ob) WTransport
+                   | _ => werr_eqb (ob_err ob) (WStatus (r_status r))
+                   end
           | _ => true
           end &&
           (* accumulated statistics (a cancelled backoff wait returns none) *)
@@ -551,9 +561,8 @@ Definition handler_spec_ok (decode : str -> option str) (accepted : list mtype) 
       match decode (h_body r) with Some d => str_eqb d payload | None => false end &&
       existsb (mtype_eqb t) accepted &&
       match ct with Some (Some t') => mtype_eqb t t' | Some None => false | None => true end &&
-      negb (sb_nil sb) &&
-      opt3_eqb written (Some (sb_samples sb, sb_hist sb, sb_exem sb)) &&
-      (status =? (if sb_err sb then (if sb_status sb =? 0 then 500 else sb_status sb) else 204))
+      (sb_nil sb || opt3_eqb written (Some (sb_samples sb, sb_hist sb, sb_exem sb))) &&
+      (status =? (if sb_err sb then (if sb_nil sb || (sb_status sb =? 0) then 500 else sb_status sb) else 204))
   | HOut status written None =>
       opt3_eqb written None &&
       (((status =? 405) && bad_method) ||
